@@ -16,6 +16,10 @@ pub enum V {
     Enum(String), // last path segment(s), e.g. "Quote::Single"
     Unit,
     Opt(Option<Box<V>>),
+    /// a finite list (slices, Vecs and iterators over them)
+    List(Vec<V>),
+    /// a record: field name -> value
+    Rec(BTreeMap<String, V>),
 }
 
 pub struct Machine<'a> {
@@ -35,6 +39,8 @@ pub struct Machine<'a> {
 }
 
 const RETURN_SIGNAL: &str = "\u{0}return";
+const BREAK_SIGNAL: &str = "\u{0}break";
+const CONTINUE_SIGNAL: &str = "\u{0}continue";
 
 pub type R = Result<V, String>;
 
@@ -205,6 +211,27 @@ impl<'a> Machine<'a> {
             Err(e) if e == RETURN_SIGNAL => Ok(self.returning.take().unwrap_or(V::Unit)),
             other => other,
         }
+    }
+
+    /// Evaluate a function body: a `return` ends it with its value.
+    pub fn eval_fn_body(&mut self, b: &syn::Block) -> R {
+        let depth = self.env.len();
+        let r = self.eval_block(b);
+        self.env.truncate(depth);
+        match r {
+            Err(e) if e == RETURN_SIGNAL => Ok(self.returning.take().unwrap_or(V::Unit)),
+            other => other,
+        }
+    }
+
+    fn assign(&mut self, name: &str, v: V) -> bool {
+        for scope in self.env.iter_mut().rev() {
+            if scope.contains_key(name) {
+                scope.insert(name.to_string(), v);
+                return true;
+            }
+        }
+        false
     }
 
     pub fn eval_block(&mut self, b: &syn::Block) -> R {
@@ -424,6 +451,23 @@ impl<'a> Machine<'a> {
                         o => Err(format!("|| on {:?}", o)),
                     };
                 }
+                // compound assignment to a local / place
+                let compound = match &b.op {
+                    syn::BinOp::AddAssign(_) => Some('+'),
+                    syn::BinOp::SubAssign(_) => Some('-'),
+                    _ => None,
+                };
+                if let Some(op) = compound {
+                    let k = sm::tsc(&b.left);
+                    let cur = self.get(&k).ok_or_else(|| format!("compound assignment to unbound `{}`", k))?;
+                    let r = self.eval(&b.right)?;
+                    let nv = match (cur, r) {
+                        (V::Int(a), V::Int(c)) => V::Int(if op == '+' { a + c } else { a - c }),
+                        (a, c) => return Err(format!("compound assignment on {:?} {:?}", a, c)),
+                    };
+                    self.assign(&k, nv);
+                    return Ok(V::Unit);
+                }
                 let l = self.eval(&b.left)?;
                 let r = self.eval(&b.right)?;
                 let num = |v: &V| match v {
@@ -508,8 +552,20 @@ impl<'a> Machine<'a> {
             syn::Expr::Call(c) => {
                 let f = sm::tsc(&c.func);
                 if f == "Err" && c.args.len() == 1 {
-                    // error values are opaque: their text is kept for the rule to inspect
-                    return Ok(V::Enum(format!("Err({})", sm::tsc(&c.args[0]))));
+                    // error values are opaque: their text is kept for the rule to inspect; the fields of a struct
+                    // literal are shown with their values where they can be evaluated
+                    if let syn::Expr::Struct(st) = &c.args[0] {
+                        let mut parts = vec![];
+                        for fv in &st.fields {
+                            let shown = match self.eval(&fv.expr) {
+                                Ok(v) => format!("{:?}", v),
+                                Err(_) => sm::tsc(&fv.expr),
+                            };
+                            parts.push(format!("{}:{}", sm::ts(&fv.member), shown));
+                        }
+                        return Ok(V::Enum(format!("Err({}{{{}}})", sm::tsc(&st.path), parts.join(","))));
+                    }
+                    return Ok(V::Enum(format!("Err({}))", sm::tsc(&c.args[0]))));
                 }
                 let mut args = vec![];
                 for a in &c.args {
@@ -580,12 +636,54 @@ impl<'a> Machine<'a> {
                         }
                     }
                 }
-                if mc.args.is_empty() && matches!(m.as_str(), "as_ref" | "as_deref" | "clone" | "copied" | "cloned") {
+                if mc.args.is_empty() && matches!(m.as_str(), "as_ref" | "as_deref" | "clone" | "copied" | "cloned" | "iter" | "into_iter" | "iter_mut" | "peekable") {
                     return Ok(recv);
+                }
+                if mc.args.is_empty() {
+                    match (&recv, m.as_str()) {
+                        (V::Opt(o), "is_some") => return Ok(V::Bool(o.is_some())),
+                        (V::Opt(o), "is_none") => return Ok(V::Bool(o.is_none())),
+                        (V::List(v), "next") => return Ok(V::Opt(v.first().cloned().map(Box::new))),
+                        (V::List(v), "len") | (V::List(v), "count") => return Ok(V::Int(v.len() as i128)),
+                        (V::List(v), "is_empty") => return Ok(V::Bool(v.is_empty())),
+                        (V::List(v), "rev") => return Ok(V::List(v.iter().rev().cloned().collect())),
+                        _ => {}
+                    }
+                }
+                if mc.args.len() == 1 {
+                    if let (V::List(v), syn::Expr::Closure(c)) = (&recv, &mc.args[0]) {
+                        let v = v.clone();
+                        match m.as_str() {
+                            "skip_while" | "take_while" | "filter" | "find" | "any" | "all" | "position" => {
+                                let mut flags = vec![];
+                                for it in &v {
+                                    match self.call_closure(c, it)? {
+                                        V::Bool(b) => flags.push(b),
+                                        other => return Err(format!("closure result {:?}", other)),
+                                    }
+                                }
+                                return Ok(match m.as_str() {
+                                    "skip_while" => V::List(v.iter().zip(&flags).skip_while(|(_, f)| **f).map(|(x, _)| x.clone()).collect()),
+                                    "take_while" => V::List(v.iter().zip(&flags).take_while(|(_, f)| **f).map(|(x, _)| x.clone()).collect()),
+                                    "filter" => V::List(v.iter().zip(&flags).filter(|(_, f)| **f).map(|(x, _)| x.clone()).collect()),
+                                    "find" => V::Opt(v.iter().zip(&flags).find(|(_, f)| **f).map(|(x, _)| Box::new(x.clone()))),
+                                    "any" => V::Bool(flags.iter().any(|f| *f)),
+                                    "all" => V::Bool(flags.iter().all(|f| *f)),
+                                    _ => V::Opt(flags.iter().position(|f| *f).map(|i| Box::new(V::Int(i as i128)))),
+                                });
+                            }
+                            _ => {}
+                        }
+                    }
                 }
                 let mut args = vec![];
                 for a in &mc.args {
                     args.push(self.eval(a)?);
+                }
+                if let (V::List(a), "chain", Some(V::List(b))) = (&recv, m.as_str(), args.first()) {
+                    let mut v = a.clone();
+                    v.extend(b.iter().cloned());
+                    return Ok(V::List(v));
                 }
                 match (&recv, m.as_str()) {
                     (V::Char(c), "is_ascii") => return Ok(V::Bool(*c < 0x80)),
@@ -606,8 +704,91 @@ impl<'a> Machine<'a> {
             syn::Expr::Field(_) | syn::Expr::Index(_) => {
                 // place expressions such as `self.window[0]`: looked up by their compact text
                 let k = sm::tsc(e);
-                self.get(&k).ok_or_else(|| format!("unbound place `{}`", k))
+                if let Some(v) = self.get(&k) {
+                    return Ok(v);
+                }
+                // a field of a record value
+                if let syn::Expr::Field(f) = e {
+                    if let Ok(V::Rec(m)) = self.eval(&f.base) {
+                        let name = sm::ts(&f.member);
+                        return m.get(&name).cloned().ok_or_else(|| format!("no field `{}`", name));
+                    }
+                    if let (Ok(V::Tuple(t)), syn::Member::Unnamed(ix)) = (self.eval(&f.base), &f.member) {
+                        return t.get(ix.index as usize).cloned().ok_or_else(|| "tuple index".to_string());
+                    }
+                }
+                Err(format!("unbound place `{}`", k))
             }
+            syn::Expr::Assign(a) => {
+                let v = self.eval(&a.right)?;
+                let k = sm::tsc(&a.left);
+                if self.assign(&k, v) {
+                    Ok(V::Unit)
+                } else {
+                    Err(format!("assignment to unbound `{}`", k))
+                }
+            }
+            syn::Expr::ForLoop(fl) => {
+                let items = match self.eval(&fl.expr)? {
+                    V::List(v) => v,
+                    other => return Err(format!("for over {:?}", other)),
+                };
+                for it in items {
+                    self.env.push(BTreeMap::new());
+                    if !self.pat_matches(&fl.pat, &it)? {
+                        self.env.pop();
+                        return Err("for pattern".into());
+                    }
+                    let r = self.eval_block(&fl.body);
+                    self.env.pop();
+                    match r {
+                        Err(e) if e == BREAK_SIGNAL => break,
+                        Err(e) if e == CONTINUE_SIGNAL => continue,
+                        Err(e) => return Err(e),
+                        Ok(_) => {}
+                    }
+                }
+                Ok(V::Unit)
+            }
+            syn::Expr::Loop(l) => {
+                let mut fuel = 10_000;
+                loop {
+                    fuel -= 1;
+                    if fuel == 0 {
+                        return Err("loop does not terminate within the fuel bound".into());
+                    }
+                    match self.eval_block(&l.body) {
+                        Err(e) if e == BREAK_SIGNAL => break,
+                        Err(e) if e == CONTINUE_SIGNAL => continue,
+                        Err(e) => return Err(e),
+                        Ok(_) => {}
+                    }
+                }
+                Ok(V::Unit)
+            }
+            syn::Expr::While(w) => {
+                let mut fuel = 10_000;
+                loop {
+                    fuel -= 1;
+                    if fuel == 0 {
+                        return Err("loop does not terminate within the fuel bound".into());
+                    }
+                    match self.eval(&w.cond)? {
+                        V::Bool(true) => {}
+                        V::Bool(false) => break,
+                        o => return Err(format!("while on {:?}", o)),
+                    }
+                    match self.eval_block(&w.body) {
+                        Err(e) if e == BREAK_SIGNAL => break,
+                        Err(e) if e == CONTINUE_SIGNAL => continue,
+                        Err(e) => return Err(e),
+                        Ok(_) => {}
+                    }
+                }
+                Ok(V::Unit)
+            }
+            syn::Expr::Break(_) => Err(BREAK_SIGNAL.to_string()),
+            syn::Expr::Continue(_) => Err(CONTINUE_SIGNAL.to_string()),
             other => Err(format!("expression `{}`", sm::tsc(other).chars().take(60).collect::<String>())),
         }
     }
